@@ -38,7 +38,7 @@ Init == /\ stored = 0 /\ lock = 0 /\ validRT = 0 /\ calls = 0
         /\ result = [r \in Reqs |-> "none"] /\ servedGen = [r \in Reqs |-> Absent]
         /\ hist = <<>>
 
-Step(r, a) == hist' = Append(hist, [r |-> r, a |-> a])
+Step(r, a) == hist' = Append(hist, [a |-> a, args |-> [r |-> r]])
 Keep(vs) == UNCHANGED vs
 
 Load(r) ==
@@ -82,10 +82,19 @@ RefreshAtIdP(r) ==
             /\ refreshed' = [refreshed EXCEPT ![r] = TRUE]
             /\ pc' = [pc EXCEPT ![r] = "save"]
             /\ Step(r, "refresh_ok")
-       ELSE /\ pc' = [pc EXCEPT ![r] = "validate"]         \* the error is only logged; validation decides
+       ELSE /\ pc' = [pc EXCEPT ![r] = "refresh_retry"]
             /\ Step(r, "refresh_fail")
             /\ UNCHANGED <<validRT, sess, refreshed>>
     /\ UNCHANGED <<stored, lock, tries, validated, result, servedGen>>
+\* a rejected token request is repeated once with the other client-authentication style (golang.org/x/oauth2 probes
+\* header vs. body credentials on every call because the configuration object is rebuilt per call); then the error is
+\* only logged and validation decides
+RefreshRetry(r) ==
+    /\ pc[r] = "refresh_retry"
+    /\ calls' = calls + 1
+    /\ pc' = [pc EXCEPT ![r] = "validate"]
+    /\ Step(r, "refresh_fail")
+    /\ UNCHANGED <<stored, lock, validRT, sess, tries, refreshed, validated, result, servedGen>>
 
 Save(r) ==
     /\ pc[r] = "save"
@@ -124,10 +133,10 @@ Serve(r) ==
 LockExpire ==
     /\ LockExpires /\ lock # 0
     /\ lock' = 0
-    /\ hist' = Append(hist, [r |-> 0, a |-> "lock_expire"])
+    /\ hist' = Append(hist, [a |-> "lock_expire", args |-> [r |-> 0]])
     /\ UNCHANGED <<stored, validRT, calls, pc, sess, tries, refreshed, validated, result, servedGen>>
 
-Next == (\E r \in Reqs : Load(r) \/ ObtainOk(r) \/ ObtainFail(r) \/ Reload(r) \/ RefreshAtIdP(r) \/ Save(r) \/ Validate(r)
+Next == (\E r \in Reqs : Load(r) \/ ObtainOk(r) \/ ObtainFail(r) \/ Reload(r) \/ RefreshAtIdP(r) \/ RefreshRetry(r) \/ Save(r) \/ Validate(r)
                           \/ Release(r) \/ Clear(r) \/ Serve(r))
         \/ LockExpire
 
